@@ -171,7 +171,8 @@ class Gen:
             if self.big_arrays and r.random() < 0.2:
                 n = r.choice([32, 33, 40, 64])      # serde / bytemuck stop at 32 elements: the derive lists must not depend on it
             elif self.huge_arrays and base.kind in ("scalar", "vec", "mat") and r.random() < 0.15:
-                n = r.choice([752, 1000, 4096, 65536, 62600])      # sizes / offsets of five and more digits
+                # sizes / offsets of five and more digits; lengths with zero digit groups (10000, 131072, 100003)
+                n = r.choice([752, 1000, 4096, 65536, 62600, 10000, 131072, 100003, 20480])
             return Ty("array", elem=base, n=n)
         return self.leaf()
 
@@ -357,7 +358,7 @@ def program(rng, **kw):
         io_lines.append(g.render_struct(s, locations=locs))
     if nentry and rng.random() < 0.6:
         ms = [("clip", Ty("vec", n=4, s="f32")), ("uv", Ty("vec", n=2, s="f32"))]
-        inter = Ty("struct", name="Inter", members=ms, has_rts=False)
+        inter = Ty("struct", name="Inter", members=ms, has_rts=False, builtins={"clip"})
         io_lines.append("struct Inter {\n  @builtin(position) clip: vec4<f32>,\n  @location(0) uv: vec2<f32>,\n}")
     ids_struct = None
     if nentry and rng.random() < 0.3:
@@ -466,8 +467,11 @@ def program(rng, **kw):
         else:
             vlike_unused = vlike
             vlike = None
-        ret = "Inter" if inter else "@builtin(position) vec4<f32>"
-        retv = "var o: Inter; return o;" if inter else "return vec4<f32>(0.0);"
+        # the struct with the position builtin is sometimes only CONSUMED in this module (the producing vertex stage lives
+        # in another file): no entry point returns it, so it is an ordinary entry point parameter struct
+        inter_consumed_only = bool(inter) and nentry >= 2 and rng.random() < 0.3
+        ret = "Inter" if inter and not inter_consumed_only else "@builtin(position) vec4<f32>"
+        retv = "var o: Inter; return o;" if inter and not inter_consumed_only else "return vec4<f32>(0.0);"
         lines.append("@vertex fn vs_main(%s) -> %s { %s %s }" % (", ".join(params), ret, body_local, retv))
         entries.append("vs_main")
     if nentry >= 2:
@@ -518,6 +522,9 @@ def program(rng, **kw):
         if vlike is not None:
             all_structs["LikeFOut"] = vlike
             emitted.add("LikeFOut")
+    if nentry >= 2 and inter and inter_consumed_only:
+        all_structs["Inter"] = inter
+        emitted.add("Inter")
     # Inter: entry argument of fs_main but also the result of vs_main -> not emitted; FOut: result only
     for s in grid_structs:
         all_structs[s.name] = s
@@ -537,7 +544,8 @@ def program(rng, **kw):
             bi = getattr(s, "builtins", set())
             truth.append({"name": n, "host": n in host, "rts": bool(getattr(s, "has_rts", False)),
                           "size": s.size(), "offsets": [(mn, off) for mn, off in s.offsets() if mn not in bi],
-                          "members": [(mn, mt.shape()) for mn, mt in s.members if mn not in bi]})
+                          "members": [(mn, mt.shape()) for mn, mt in s.members if mn not in bi],
+                          "kinds": [mt.kind for mn, mt in s.members if mn not in bi]})
     if rng.random() < 0.12:
         # many more types than a machine word has bits, declared first (every struct then has a large type handle)
         npad = rng.choice([40, 61, 70, 100, 130, 200, 260])
